@@ -66,6 +66,10 @@ def seq_families(tier):
                         scen.with_bounds(scen.nary("merge", 2, late=True), "merge", **nbig))
     F["flatten2"] = (scen.with_bounds(scen.flatten_g(2), "flatten", **nb),
                      scen.with_bounds(scen.flatten_g(3), "flatten", **nbig))
+    # flatten with an outer that can hand out two inners in one scenario (e.g. answer a Pull with the next inner
+    # and complete at once), without greeting bursts to keep it small
+    F["flatten2_d2"] = (scen.with_bounds(scen.flatten_g(2), "flatten", maxData=2, maxTop=3 if q else 4, maxPull=1,
+                                         allowFail=q is False, burst=False), None)
     F["share1"] = (scen.with_bounds(scen.share_g(), "share", sinks=["probe"], **un), None)
     F["share2"] = (scen.with_bounds(scen.share_g(), "share", sinks=["probe", "probe"], maxData=1 if q else 2, maxTop=4,
                                     maxPull=1, allowFail=True),
@@ -76,7 +80,7 @@ def seq_families(tier):
 GENERIC = ["C01", "C02", "C03", "C04", "C05", "C17"]
 
 BIG = ("merge3", "combine3", "concat3", "share2", "merge2_late", "flatten2", "combine2", "merge2", "concat2",
-       "take1_2s")
+       "take1_2s", "flatten2_d2")
 
 
 def group_small(fams):
